@@ -28,6 +28,7 @@ var rawFuncs = map[string]struct {
 	"s_base": {"s_base", SInt}, "s_off": {"s_off", SInt}, "s_len": {"s_len", SInt}, "s_cap": {"s_cap", SInt},
 	"arr2str": {"arr2str", SStr},
 	"rv_valid": {"rv_valid", SBool}, "rv_val": {"rv_val", SVal}, "rv_iface": {"rv_iface", SBool}, "mk_rv": {"mk_rv", "RV"},
+	"wsink": {"wsink", SVal},
 	"rvkind": {"rvkind", SInt}, "tconvertible": {"tconvertible", SBool},
 }
 
@@ -204,6 +205,14 @@ func (c *SpecCtx) call(e *ast.CallExpr) TT {
 				return TT{T: ge(x.T, c.st.alloc0), Ty: boolT}
 			}
 			c.failf("fresh() of sort %s", x.T.Sort)
+		case "newbuf":
+			// x is a *bytes.Buffer allocated since the old state (a fresh capture buffer)
+			if c.old == nil {
+				c.failf("newbuf() needs an old state")
+			}
+			x := c.tr(e.Args[0])
+			bt := c.w().lookupType("*bytes.Buffer")
+			return TT{T: and(eq(app(SInt, "typeof", x.T), intLit(int64(c.w().typeID(bt, c.ex.d)))), ge(c.w().unbox(bt, x.T, c.ex.d), c.old.alloc)), Ty: boolT}
 		case "freshOrNil":
 			x := c.tr(e.Args[0])
 			switch x.T.Sort {
